@@ -21,8 +21,8 @@ ROOT = os.path.dirname(os.path.dirname(os.path.dirname(os.path.abspath(__file__)
 
 def sizes(ctx):
     if ctx.quick:
-        return dict(core=450, excon=200, nola=50, wide=40)
-    return dict(core=15000, excon=6000, nola=800, wide=800)
+        return dict(core=450, excon=200, nola=50, wide=40, retry=150)
+    return dict(core=15000, excon=6000, nola=800, wide=800, retry=3000)
 
 def limited(rng, base):
     return dict(base, mvpn=rng.choice([1, 2, 3, 7]), avpm=rng.choice([0, 1, 2]),
@@ -49,6 +49,26 @@ def gen_cases(ctx):
         add('nola', rc['nola'][i % len(rc['nola'])], False, 0.75, False)
     for i in range(n['wide']):
         add('wide', rc['wide'][i % len(rc['wide'])], False, 0.75, False)
+    # retry clause: the first n attempts of every transcript are made to time out (inside the worker only)
+    for i in range(n.get('retry', 0)):
+        c = CG.gen_case(rng, coding_p=0.75, nvar=rng.choice([2, 3, 4, 5, 6]))
+        base = CG.gen_run(rng, rule='trypsin', exc_on=False)
+        kind = rng.choice(['sorted', 'sorted', 'sorted', 'unsorted', 'single', 'disabled'])
+        if kind == 'single':
+            mvs, avs = [rng.choice([1, 2, 3, 7])], [rng.choice([0, 1, 2])]
+        elif kind == 'disabled':
+            mvs, avs = [-1], [rng.choice([-1, 2])]
+        else:
+            mvs = rng.sample([7, 5, 4, 3, 2, 1], rng.choice([2, 3]))
+            avs = rng.sample([2, 1, 0], rng.choice([1, 2, 3]))
+            if kind == 'sorted':
+                mvs.sort(reverse=True); avs.sort(reverse=True)
+        nto = rng.choice([0, 1, 1, 2, 2, 3, 4, 8])
+        c['runs'] = [dict(base, mvpn=mvs, avpm=avs, force_timeouts=nto, mnc=rng.choice([2, 5, 30]), naa=rng.choice([1, 3, 5])),
+                     dict(base, mvpn=mvs[0], avpm=avs[0], skip_oracle=True)]
+        c['stream'] = 'retry'
+        c['tuple_kind'] = kind
+        cases.append(c)
     return cases
 
 def corpus_cases():
@@ -70,6 +90,8 @@ def judge(evs, violations, stats):
         if ev.exc:
             if CK.is_nola_crash(ev.run, ev.exc):
                 stats['crash_nolookahead'] += 1      # nothing is emitted: soundness holds vacuously; C01 owns the finding
+            elif st == 'retry' and ev.run.get('force_timeouts') is not None and ev.exc['__exc__'] == 'ValueError':
+                pass                                 # judged against the model of caller_reducer in judge_retry
             else:
                 violations.append({'what': 'callVariant aborted with %s (%s)' % (ev.exc['__exc__'], ev.exc.get('msg', '')[:120]),
                                    'replay_obj': CK.replay_obj(ev, 'crash'), 'no_input': False})
@@ -87,15 +109,20 @@ def judge(evs, violations, stats):
             groups[tag].append(p)
         for tag, ps in groups.items():
             stats['unrealizable:%s' % (tag or 'UNEXPLAINED')] += len(ps)
-            v = {'what': 'FASTA sequence(s) %s not realizable by any compatible combination of the supplied records (%s, rule %s, exception %s, k=%d, mvpn=%d, avpm=%d)' % (
+            v = {'what': 'FASTA sequence(s) %s not realizable by any compatible combination of the supplied records (%s, rule %s, exception %s, k=%d, mvpn=%s, avpm=%s)' % (
                      sorted(ps)[:4], ev.case.get('stream'), ev.run['rule'], ev.run['exc'], ev.run['k'], ev.run['mvpn'], ev.run['avpm']),
                  'replay_obj': CK.replay_obj(ev, 'unrealizable', {'unrealizable': sorted(ps)}), 'no_input': False}
             if tag:
                 v['finding'] = tag
             violations.append(v)
+    # retry clause (caller_reducer): limits per attempt = model, result subset of the un-timed-out run
+    for ci, es in by_case.items():
+        if es[0].case.get('stream') != 'retry':
+            continue
+        judge_retry(es, violations, stats)
     # limits only remove peptides (exception off, deterministic part)
     for ci, es in by_case.items():
-        if len(es) < 2 or any(e.exc for e in es):
+        if len(es) < 2 or any(e.exc for e in es) or es[0].case.get('stream') == 'retry':
             continue
         lim, unl = es[0], es[1]
         stats['limit_pairs'] += 1
@@ -104,12 +131,60 @@ def judge(evs, violations, stats):
         added = set(lim.got) - set(unl.got)
         unexplained = [p for p in added if not C01.explain_diff(lim, p)]
         if unexplained:
-            violations.append({'what': 'binding complexity limits ADD peptides %s (mvpn=%d, avpm=%d vs disabled)' % (
+            violations.append({'what': 'binding complexity limits ADD peptides %s (mvpn=%s, avpm=%s vs disabled)' % (
                                    sorted(unexplained)[:4], lim.run['mvpn'], lim.run['avpm']),
                                'replay_obj': {'kind': 'case', 'what': 'limits', 'case': dict(CK.strip_case(lim.case), runs=[lim.run, unl.run])},
                                'no_input': False})
         elif added:
             stats['limit_added_known'] += 1
+
+def _tight(a, b):
+    return b < 0 or (0 <= a <= b)
+
+def judge_retry(es, violations, stats):
+    a = es[0]
+    run = a.run
+    pairs, failed = O.call('c02_retry', [run['mvpn'], run['avpm'], run['force_timeouts']])
+    pairs = [list(p) for p in pairs]
+    stats['retry_cases'] += 1
+    stats['retry_failed_expected'] += bool(failed)
+    log = a.raw.get('attempts', [])
+    by_tx = collections.OrderedDict()
+    for tx, mv, av in log:
+        by_tx.setdefault(tx, []).append([mv, av])
+    def viol(what):
+        violations.append({'what': 'retry (caller_reducer) %s; tuples mvpn=%s avpm=%s, %d forced timeouts' % (
+                               what, run['mvpn'], run['avpm'], run['force_timeouts']),
+                           'replay_obj': {'kind': 'case', 'what': 'retry', 'case': dict(CK.strip_case(a.case), runs=[e.run for e in es])},
+                           'no_input': False})
+    if not log and not a.exc:
+        stats['retry_nothing_dispatched'] += 1        # no transcript reached caller_reducer (all records dropped)
+        return
+    if failed:
+        if not a.exc or a.exc.get('__exc__') != 'ValueError':
+            viol('should end in ValueError after %d attempts but %s' % (len(pairs), 'raised ' + a.exc['__exc__'] if a.exc else 'returned normally'))
+        elif by_tx and list(by_tx.values())[0] != pairs:
+            viol('limits per attempt %s differ from the model %s' % (list(by_tx.values())[0], pairs))
+        return
+    if a.exc:
+        if a.exc.get('__exc__') == 'ValueError':
+            viol('raised ValueError although the model expects the attempt with limits %s to run' % pairs[-1])
+        return            # other classes are reported by the generic part
+    for tx, seq in by_tx.items():
+        stats['retry_sequences'] += 1
+        if seq != pairs:
+            viol('limits per attempt for %s are %s, model says %s' % (tx, seq, pairs))
+            return
+    if len(es) > 1 and not es[1].exc:
+        b = es[1]
+        sorted_tuples = all(_tight(y, x) for x, y in zip(run['mvpn'], run['mvpn'][1:])) and \
+                        all(_tight(y, x) for x, y in zip(run['avpm'], run['avpm'][1:]))
+        if sorted_tuples or run['force_timeouts'] == 0:
+            stats['retry_subset_checked'] += 1
+            added = [p for p in set(a.got) - set(b.got) if not C01.explain_diff(a, p)]
+            if added:
+                viol('after %d timeouts the output has peptides %s that the un-timed-out run with the initial limits lacks' % (
+                         run['force_timeouts'], sorted(added)[:4]))
 
 def run(ctx):
     stats = collections.Counter()
@@ -137,6 +212,7 @@ def run(ctx):
             if cnt[v['finding']] > 40:
                 continue
         keep.append(v)
+    CK.annotate_stability(ctx, keep, judge, want_may=True)
     samples = [dict(CK.strip_case(c), world='<omitted>') for c in cases[:3]]
     return dict(evaluations=sum(v for k, v in stats.items() if k.startswith('runs:')),
                 distinct_nontrivial=stats['nontrivial'],
@@ -148,7 +224,7 @@ def run(ctx):
                 known_finding_counts=dict(cnt), engine_tied_by='correspondence',
                 violations=keep,
                 assumptions=['records are SNV / MNV / INDEL on linear transcripts (fusion, alternative splicing, circRNA not generated: property partial for them)',
-                             'the timeout-driven retry path (caller_reducer) is not driven by the correspondence (no hook); limits are varied directly instead',
+                             'timeouts are forced inside the worker process (monkeypatched call_variant_peptides_wrapper), real SIGALRM timeouts are not exercised',
                              'gene -> transcript coordinates by the generator\'s ground truth; mass thresholds off the 1e-4 grid',
                              '<= 7 records per cluster'],
                 trusted_base=['glue coq/Extract/Api_Spec.v', 'case generator harness/lib/cvgen.py and signature predicates harness/lib/cvsig.py'])
@@ -156,6 +232,8 @@ def run(ctx):
 def replay(ctx, obj):
     c = obj['case']
     c['stream'] = 'core' if obj.get('what') == 'limits' else obj.get('what', 'replay')
+    if obj.get('what') == 'retry' and len(c['runs']) > 1:
+        c['runs'][1]['skip_oracle'] = True
     if obj.get('what') == 'limits' and len(c['runs']) > 1:
         c['runs'][1]['skip_oracle'] = True
     n = int(obj.get('repeat', 4))
